@@ -252,6 +252,13 @@ def reexecute_check(acc, plan, case, row, res):
         op = cls.from_bitarray(instr, a) if cls else None
         if op is None:
             return
+        # a disassembler / tracer looks ahead: decoding ANOTHER word is a pure query, it leaves the instruction about to execute alone
+        other = (instr ^ 0xF0000000) if a.opcode_len == 32 and not (a.registers.cpsr.value >> 5) & 1 else 0xBF00
+        try:
+            a.decode_instruction(other)
+            b.decode_instruction(other)
+        except Exception:       # noqa: BLE001
+            pass
         snaps = []
         for cpu in (a, b):
             cpu.execute_instruction(op)
@@ -260,11 +267,56 @@ def reexecute_check(acc, plan, case, row, res):
     except Exception:       # noqa: BLE001 - an instruction that ends in an exception is handled by emulate_cycle, not by this embedder-level path
         return
     acc.cls('opcode-object-executed-again')
+    direct_execute_check(acc, plan, case, row)
     for i_, sn in enumerate(snaps):
         d = {k: (res.post.get(k), v) for k, v in sn.items() if k in res.post and res.post.get(k) != v}
         if d:
             acc.violation('%s:%s:opcode-object-%s-execution:%s' % (plan.prop, row, ('first', 'second')[i_], sig(d)), case, {'diffs(ordinary step, this execution)': e1.fmt_diff(d)})
             return
+
+
+def direct_execute_check(acc, plan, case, row):
+    """the way the repository's own tests drive an instruction: fetch, decode, `opcode.execute(processor)`. After an ordinary cycle (a NOP in front of the
+    instruction) the directly executed instruction must end where two ordinary cycles end. ARM state / Thumb outside IT blocks only."""
+    st = case['state']
+    if (st['cpsr'] & 0x0600FC00) or case.get('inject') or (st['cpsr'] >> 24) & 1:
+        return
+    thumb = bool((st['cpsr'] >> 5) & 1)
+    nop = e1.enc_thumb(0xBF00) if thumb else e1.enc_arm(0xE1A00000)
+    try:
+        c2 = dict(case)
+        pc0 = st['R.PC']
+        code = bytes.fromhex(case['poke'][0][1]) if isinstance(case['poke'][0][1], str) else case['poke'][0][1]
+        if case['poke'][0][0] != pc0:
+            return
+        c2['poke'] = [[pc0, (nop + code).hex()]] + [p_ for p_ in case['poke'][1:]]
+        d, c = e1.build(c2), e1.build(c2)
+        e1_ = target.step_budget(d)
+        e2_ = target.step_budget(d)
+        if e1_ is not None or e2_ is not None:
+            return
+        want = target.snapshot(d, True)
+        if target.step_budget(c) is not None:
+            return
+        instr = c.fetch_instruction()
+        cls = c.decode_instruction(instr)
+        op = cls.from_bitarray(instr, c) if cls else None
+        if op is None:
+            return
+        c.registers.changed_registers = [False] * 16
+        if hasattr(c.registers, 'itstate_restored'):
+            c.registers.itstate_restored = False
+        op.execute(c)
+        c.increment_pc_if_needed()
+        got = target.snapshot(c, True)
+    except Exception:       # noqa: BLE001 - exceptions are emulate_cycle's business; this path only judges instructions that complete
+        return
+    acc.cls('opcode-executed-directly')
+    if (want['cpsr'] & 31) != (st['cpsr'] & 31):
+        return                      # an exception was taken in the ordinary run: nothing to compare this path with
+    dd = {k: (want.get(k), v) for k, v in got.items() if want.get(k) != v}
+    if dd:
+        acc.violation('%s:%s:opcode-executed-directly:%s' % (plan.prop, row, sig(dd)), case, {'diffs(two ordinary cycles, NOP + direct execute)': e1.fmt_diff(dd)})
 
 
 def shard(plan_ref, seed, examples):
